@@ -3,7 +3,12 @@
 scratch copy of the package, never on /repo) and write seeded/RESULTS.json + a markdown table."""
 import json, os, subprocess, sys, glob, time, concurrent.futures as cf
 HERE = os.path.dirname(os.path.dirname(os.path.abspath(__file__)))
-only = set(sys.argv[1:])
+args = sys.argv[1:]
+NJ = 1
+if args and args[0].startswith('-j'):
+    NJ = int(args[0][2:] or 2)
+    args = args[1:]
+only = set(args)
 seeds = sorted(d for d in glob.glob(os.path.join(HERE, 'seeded', 'C*_*')) if os.path.isdir(d))
 res_path = os.path.join(HERE, 'seeded', 'RESULTS.json')
 results = json.load(open(res_path)) if os.path.exists(res_path) else {}
@@ -25,9 +30,15 @@ for s in seeds:
     extra = []
     meta = os.path.join(s, 'meta.json')
     jobs.append((name, s, pid))
-# sequential: each check already uses all cores
-for name, s, pid in jobs:
+# sequential by default (each check already uses all cores); -jN runs N seeds at a time
+import threading
+lock = threading.Lock()
+def one(job):
+    name, s, pid = job
     r = run(s, pid)
-    results.setdefault(name, {})[pid] = r
-    print(name, pid, 'CAUGHT' if r['caught'] else 'missed', r['wall_s'], 's', flush=True)
-    json.dump(results, open(res_path, 'w'), indent=1)
+    with lock:
+        results.setdefault(name, {})[pid] = r
+        print(name, pid, 'CAUGHT' if r['caught'] else 'missed', r['wall_s'], 's', flush=True)
+        json.dump(results, open(res_path, 'w'), indent=1)
+with cf.ThreadPoolExecutor(max_workers=NJ) as ex:
+    list(ex.map(one, jobs))
